@@ -94,6 +94,7 @@ InitS ==
    cdone |-> [n \in Nodes |-> FALSE],            \* take_until cleanup operation: cleanupCompleted_
    serr |-> [n \in Nodes |-> NONE], terr |-> [n \in Nodes |-> NONE],
    rc |-> [n \in Nodes |-> 0],                   \* type_erase next operation: refCount_
+   tec |-> [n \in Nodes |-> FALSE],              \* type_erase next operation connected (stop callback registered) but not yet started
    pcalls |-> [n \in Nodes |-> 0],               \* filter: predicate invocations
    acc |-> 0, mode |-> "run", perr |-> NONE,     \* reduce_stream: state_, which child operation is active, pending error
    ctxq |-> [c \in Ctxs |-> <<>>],
@@ -143,17 +144,32 @@ DoNext(T, n) ==
          IF ReqOf(T, t) THEN Fwd(T0, n, Done) ELSE Repl(Reg([T0 EXCEPT !.npend[n] = TRUE], t, n), <<>>)
     [] K \in {"adapt", "adapt2", "next_adapt"} -> Repl(LogFn(T0, n, 0), <<Sig("next", Kid(n), NONE)>>)
     [] K = "take_until" ->
+         \* the next operation of the source was connected when take_until's own next operation was constructed
          Repl([T0 EXCEPT !.trig[n] = TRUE],
-              (IF T.trig[n] THEN <<>> ELSE <<Sig("next", Kids(n)[2], NONE)>>)
+              <<Sig("conn", Kids(n)[1], NONE)>> \o (IF T.trig[n] THEN <<>> ELSE <<Sig("next", Kids(n)[2], NONE)>>)
               \o <<Sig("tureg", n, NONE), Sig("next", Kids(n)[1], NONE)>>)
     [] K = "stop_imm" ->
          IF ReqOf(T, t) THEN Fwd(T0, n, Done)
          ELSE Repl(Reg([T0 EXCEPT !.sist[n] = "active"], t, n), <<Sig("next", Kid(n), NONE)>>)
-    [] K = "type_erase" ->      \* the stop callback is registered when the next operation is connected
-         IF ReqOf(T, t) THEN Repl([T0 EXCEPT !.rc[n] = 1], <<Sig("tereq", n, NONE), Sig("next", Kid(n), NONE)>>)
+    [] K = "type_erase" ->      \* the stop callback is registered when the next operation is connected (see DoConn)
+         IF T.tec[n] THEN Repl([T0 EXCEPT !.tec[n] = FALSE], <<Sig("next", Kid(n), NONE)>>)
+         ELSE IF ReqOf(T, t) THEN Repl([T0 EXCEPT !.rc[n] = 1], <<Sig("tereq", n, NONE), Sig("next", Kid(n), NONE)>>)
          ELSE Repl(Reg([T0 EXCEPT !.rc[n] = 1], t, n), <<Sig("next", Kid(n), NONE)>>)
     [] K = "on" -> Repl([T0 EXCEPT !.ctxq[Arg(n)] = Append(@, Sig("nstart", n, NONE))], <<>>)
     [] OTHER -> Repl(T0, <<Sig("next", Kid(n), NONE)>>)     \* transform filter cleanup_adapt via typed_via delay
+
+\* connect(next(stream n), receiver) without start: an adaptor that connects its child's next operation in its own constructor passes
+\* the connect down; type_erase registers its stop callback there (runs inline if stop was already requested)
+ConnThrough == {"transform", "filter", "via", "typed_via", "delay", "adapt", "adapt2", "next_adapt", "cleanup_adapt"}
+DoConn(T, n) ==
+  LET K == Kind(n) IN
+  CASE K = "type_erase" ->
+         IF T.tec[n] THEN Repl(T, <<>>)
+         ELSE IF ReqOf(T, NTok(n)) THEN Repl([T EXCEPT !.rc[n] = 1, !.tec[n] = TRUE], <<Sig("tereq", n, NONE)>>)
+         ELSE Repl(Reg([T EXCEPT !.rc[n] = 1, !.tec[n] = TRUE], NTok(n), n), <<>>)
+    [] K \in ConnThrough -> Repl(T, <<Sig("conn", Kid(n), NONE)>>)
+    [] K = "take_until" -> Repl(T, <<Sig("conn", Kids(n)[1], NONE)>>)
+    [] OTHER -> Repl(T, <<>>)
 
 \* a harness source completes its outstanding next(): scripted outcome, or done when completing from its stop callback
 DoSrcFin(T, n, fromStop) ==
@@ -308,6 +324,7 @@ StepOf(T) ==
     [] top.k = "srcfin" -> DoSrcFin(T, top.n, FALSE)
     [] top.k = "srcstopfin" -> DoSrcFin(T, top.n, TRUE)
     [] top.k = "srcclfin" -> DoSrcClFin(T, top.n)
+    [] top.k = "conn" -> DoConn(T, top.n)
     [] top.k = "tureg" -> DoTuReg(T, top.n)
     [] top.k = "tnd2" -> DoTnd2(T, top.n)
     [] top.k = "tuc2" -> DoTuc2(T, top.n)
